@@ -12,9 +12,10 @@
    (C03_contract_loose).  No operation, tick or queue_events call between the reads of a block.
    BURSTS of FILE-LEVEL operations (several operations before a read; no directory created, removed or renamed): the stream
    is the per-operation contracts and every event is justified, at the read_batch / delivered level (C03_burst_files_contract,
-   C03_burst_files_sound; side condition: no record coalesced by the kernel across an operation border).
-   STATED ONLY: C03_sound_full_current - soundness over ALL interleavings: bursts that contain directory operations, bursts on
-   the Pipeline model in general (only a computed example), ticks / queue_events between the reads of a block. *)
+   C03_burst_files_sound) and on the Pipeline model with cut reads and loose timing (C03_burst_files_pipeline); side condition:
+   no record coalesced by the kernel across an operation border.
+   STATED ONLY: C03_sound_full_current - soundness over ALL interleavings: bursts that contain directory operations, operations
+   or ticks / queue_events between the reads of a block. *)
 Require Import WD.Base.Prelude WD.Base.BStr WD.Model.SubEvents WD.Model.Emitter WD.Model.Fs WD.Model.Reader
                WD.Model.DelayQueue WD.Model.Grouping WD.Model.Pipeline WD.Model.Contract.
 Require Import WD.Proofs.ContractProofs WD.Proofs.TieProofs WD.Proofs.MoveOutProofs WD.Proofs.CoverProofs WD.Proofs.ReplaceProofs
@@ -591,6 +592,29 @@ Theorem C03_burst_files_sound : forall C full, c_faults C = [] -> c_fix_moveout 
 Proof. exact burst_files_sound. Qed.
 Print Assumptions C03_burst_files_sound.
 
+(* The same on the Pipeline model: [burst_hist P ops cuts L nit] = the operations back to back (AOp ...), then the reads of
+   the whole kernel queue cut arbitrarily (ARead n1 ... nk, the cuts add up), any ticks / queue_events calls [L], the pairing
+   delay, queue_events until the buffer is empty.  From a state whose reader is synchronised (RSync) and whose buffer is
+   idle: the history runs, sound_along holds along it, the stream is the per-operation contracts chunk by chunk, and the
+   final state is again synchronised and idle. *)
+Theorem C03_burst_files_pipeline : forall P, pc_filter P = None -> let C := pc_reader P in
+  c_faults C = [] -> c_fix_moveout C = true -> c_mask C = WATCHDOG_ALL ->
+  forall s ops cuts L recs,
+  RSync C (p_world s) (p_k s) (p_r s) -> buffer_idle (p_buf s) -> p_stopped s = false ->
+  (forall id, In id (map fst (p_tbl s)) -> (id < p_next s)%N) ->
+  burst_ok C (p_world s) ops ->
+  let KB := fst (burst_end (p_k s) (p_world s) ops) in let wn := snd (burst_end (p_k s) (p_world s) ops) in
+  k_queue KB = concat (seq_qs (p_k s) (p_world s) ops) ->
+  CutsPipeProofs.sum cuts = length (k_queue KB) -> Forall tick_or_emit L ->
+  exists nit s' obs chunks, prun P s (burst_hist P ops cuts L nit) [] = Done (s', obs) /\
+    sound_along P s recs (burst_hist P ops cuts L nit) = true /\
+    p_out s' = p_out s ++ concat chunks /\
+    Forall2 (fun ch ct0 => collapse ch = collapse ct0) chunks (contracts_of C (pc_full P) (p_world s) ops) /\
+    p_world s' = wn /\ RSync C wn (p_k s') (p_r s') /\ buffer_idle (p_buf s') /\ p_stopped s' = false /\
+    (forall id, In id (map fst (p_tbl s')) -> (id < p_next s')%N).
+Proof. exact burst_pipeline. Qed.
+Print Assumptions C03_burst_files_pipeline.
+
 (* records about files: the outcome of a read does not depend on the file system, the kernel state or the accumulator *)
 Theorem C03_read_batch_file : forall C b, Forall nondir b -> forall r t1 k1 acc1 r' k1' out1, pend r = None ->
   read_batch C t1 (r, k1, acc1) b = Done (r', k1', out1) ->
@@ -834,8 +858,8 @@ Proof. split; [exact early_timer_ok | split; [exact (first_cutter_sum phx_P) | e
 
 (* C03_burst_files_contract / _sound: world /s/R (watched), /s/O, /s/R/d, /s/R/d/f, /s/R/e; burst touch R/d/a; mv R/d/f R/e/f;
    mv R/d/a O/a; chmod R/e/f; write R/e/f; unlink R/e/f is in the class, its 11 records are not coalesced; on the Pipeline
-   model the six AOp back to back, then ARead 2; ARead 2 (cutting the first rename between its halves); ARead 100; ATick;
-   AEmit x14: sound_along holds, the 17 events are the six contracts up to collapse, FileMoved(R/d/f -> R/e/f) among them *)
+   model burst_hist with the cuts 2 + 2 + 7 (cutting the first rename between its halves), the delay and 14 queue_events
+   calls: sound_along holds, the 17 events are the six contracts up to collapse, FileMoved(R/d/f -> R/e/f) among them *)
 Example C03_burst_files_nonvacuous :
   burst_ok (cfgx true true) rp_world burst_ops /\
   exists r k, construct (cfgx true true) kinit (w_fs rp_world) = Some (r, k) /\ RSync (cfgx true true) rp_world k r /\
